@@ -130,6 +130,8 @@ def _c14_small(args):
                 out.append(x_bits.observe_shift(fx, np, [pid], d, mode, tx, xs, n, ovf=ovf))
                 out.append(x_bits.observe_shift(fx, np, [pid], d, mode, tx, xs, n, ovf=ovf, hist=['inplace', 'view', 'elementwise', 'resign', 'intfmt', 'fortran', 'transposed', 'intval'][(n + idx) % 8]))
                 out.append(x_bits.observe_shift(fx, np, [pid], d, mode, tx, [xs[(n + idx) % len(xs)]], n, ovf=ovf, scalar=True, hist='inplace'))
+                out.append(x_bits.observe_shift(fx, np, [pid], d, mode, tx, xs, n, ovf=ovf, bystander=True, scalar=False))
+                out.append(x_bits.observe_shift(fx, np, [pid], d, mode, tx, [xs[(n + idx + 2) % len(xs)]], n, ovf=ovf, bystander=True, scalar=True))
                 out.append(x_bits.observe_shift(fx, np, [pid], d, mode, tx, xs, n, ovf=ovf, iop=True, hist=[None, 'intval', 'inplace', 'intfmt'][(n + idx) % 4]))
                 out.append(x_bits.observe_shift(fx, np, [pid], d, mode, tx, [xs[(n + idx + 1) % len(xs)]], n, ovf=ovf, scalar=True, iop=True, hist=[None, 'intval', 'element'][(n + idx) % 3]))
                 for c in xs:
